@@ -121,6 +121,14 @@ func (g *genC04) Block(w *World, b int) Block {
 			add(txStep(o2))
 		}
 	}
+	for i := range steps {
+		if steps[i].Kind == "tx" && rng.Chance(1, 20) {
+			if steps[i].N == nil {
+				steps[i].N = map[string]int64{}
+			}
+			steps[i].N["upper"] = 1 // the same account, spelled in upper case
+		}
+	}
 	blk.Steps = g.net.Apply(rng, b, len(w.nodes), steps)
 	return blk
 }
@@ -204,7 +212,7 @@ func (o *oracleC04) BeforeStep(w *World, st *Step, msgs []sdk.Msg) {
 				}
 			}
 			e := c04Exp{known: true, price: cost, kind: kind}
-			if ra, err := w.node().app.RnsKeeper.Resolve(ctx, m.Referral); err == nil && ra.String() != m.Creator {
+			if ra, err := w.node().app.RnsKeeper.Resolve(ctx, m.Referral); err == nil && ra.String() != canonAddr(m.Creator) {
 				e.referred, e.refAddr = true, ra.String()
 				e.discount = 10
 				if duration > 365*24*time.Hour {
@@ -301,9 +309,9 @@ func (o *oracleC04) AfterStep(w *World, st *Step, msgs []sdk.Msg, res *abci.Resp
 	payer := ""
 	switch m := msgs[0].(type) {
 	case *storagetypes.MsgBuyStorage:
-		payer = m.Creator
+		payer = canonAddr(m.Creator)
 	case *storagetypes.MsgPostFile:
-		payer = m.Creator
+		payer = canonAddr(m.Creator)
 	}
 	D := sdk.ZeroInt()
 	if d, ok := delta[payer]; ok {
